@@ -55,6 +55,8 @@ def content(kind, ids):
         return ''.join(f'L{i}\n' for i in ids)
     if kind == 'lines-nonl':      # the last line is not newline-terminated
         return '\n'.join(f'L{i}' for i in ids)
+    if kind == 'markers-ind':     # some markers are indented ('^\\s*#\\s*[0-9]+' is what a marker is)
+        return 'head\n' + ''.join((('  ' if i % 2 else '\t') if i % 3 else '') + f'# {i + 1}\nx{i}\n' for i in ids)
     return 'head\n' + ''.join(f'# {i + 1}\nx{i}\n' for i in ids)
 
 
@@ -63,8 +65,8 @@ def present(kind, data):
     for line in data.decode().split('\n'):
         if kind in ('lines', 'lines-nonl') and line.startswith('L'):
             ids.append(int(line[1:]))
-        if kind == 'markers' and line.startswith('# '):
-            ids.append(int(line[2:]) - 1)
+        if kind in ('markers', 'markers-ind') and re.match(r'\s*# [0-9]+$', line):
+            ids.append(int(line.strip()[2:]) - 1)
     return ids
 
 
@@ -169,6 +171,52 @@ def ifs_present(data):
 
 def ifs_count(data):
     return sum(1 for l in data.decode().split('\n') if IF_LINE.match(l))
+
+
+
+def gcda_content(rnd, ids):
+    return 'GCDA v1\n' + ''.join(f'F{i}:' + 'c' * rnd.choice([0, 1, 3, 8, 17]) + '\n' for i in ids)
+
+
+def gcda_present(data):
+    return [int(l[1:].split(':')[0]) for l in data.decode().split('\n') if l.startswith('F')]
+
+
+def gcda_case(ctx, rnd, n, req):
+    """GCDABinaryPass (removes ranges of function records at the byte offsets gcov-dump reports) against the gcov-dump
+    stand-in, records of different sizes; monotone test = the file is well formed and keeps the required functions"""
+    from cvise.passes.gcdabinary import GCDABinaryPass
+    p = os.path.join(ctx.tmp, 'tc.gcda')
+    text = gcda_content(rnd, range(n))
+    with open(p, 'w') as f:
+        f.write(text)
+    reqs = set(req)
+
+    def wellformed(data):
+        ls = data.decode('latin-1').split('\n')
+        return ls[0] == 'GCDA v1' and ls[-1] == '' and all(re.fullmatch(r'F[0-9]+:c*', l) for l in ls[1:-1])
+
+    def interesting(c):
+        data = open(c, 'rb').read()
+        return wellformed(data) and reqs <= set(gcda_present(data))
+    pass_ = GCDABinaryPass(None, {'gcov-dump': os.path.join(STANDINS, 'gcov-dump')})
+    steps, final, reason = run_ref(pass_, p, interesting, ctx.tmp, observe=lambda st: (st.index, st.end(), st.instances, list(st.functions)),
+                                   max_steps=4 * (n + 2) * (n + 3) + 40, continue_after_exception=True)
+    if reason == 'max_steps':
+        return text, 'more candidates than four times the proved bound of one sweep sequence: the pass does not terminate'
+    for s in steps:
+        i, e, inst, funcs = s.state_repr
+        real = len(gcda_present(s.before))
+        if not (0 <= i < e <= inst) or inst != real:
+            return text, f'range [{i},{e}) with a cursor holding {inst} functions; the file holds {real}'
+        if not s.result.startswith('OK'):
+            return text, f'range [{i},{e}): transform ended with {s.result}'
+        want = [x for k, x in enumerate(gcda_present(s.before)) if not (i <= k < e)]
+        if s.after is None or not wellformed(s.after) or gcda_present(s.after) != want:
+            return text, f'range [{i},{e}) of {gcda_present(s.before)}: the candidate is not the file minus those function records (it holds {s.after!r})'
+    if gcda_present(final) != sorted(reqs):
+        return text, f'monotone test requiring {sorted(reqs)}: final functions {gcda_present(final)}'
+    return text, None
 
 
 def ifs_case(ctx, text, n, req, pass_=None):
@@ -280,8 +328,8 @@ def explore(ctx):
     ctx.sample({'probe': cases[len(cases) // 2][0], 'impl_output': cases[len(cases) // 2][1][:12]})
     # B. monotone runs on the real passes, C. random verdict sequences
     cases_mono, cases_seq = [], []
-    for kind in ('lines', 'markers', 'lines-nonl'):
-        for n in range(0, nsub + 1 if kind != 'lines-nonl' else min(nsub, 6) + 1):
+    for kind in ('lines', 'markers', 'lines-nonl', 'markers-ind'):
+        for n in range(0, nsub + 1 if kind not in ('lines-nonl', 'markers-ind') else min(nsub, 6) + 1):
             for r in range(0, n + 1):
                 for req in itertools.combinations(range(n), r):
                     do_case(ctx, kind, n, 'mono', req, cases_mono, cases_seq)
@@ -336,6 +384,17 @@ def explore(ctx):
             ctx.nontriv(('ifs', text, tuple(req)))
         if why:
             ctx.violation('binary-ifs-mono', f'ifs on {text!r}: {why}', {'kind': 'ifs', 'text': text, 'n': n, 'param': req})
+    # coverage data: GCDABinaryPass with the gcov-dump stand-in, function records of different sizes
+    for n in range(1, 5 if ctx.quick() else 7):
+        for r in range(0, n + 1):
+            for req in itertools.combinations(range(n), r):
+                text, why = gcda_case(ctx, rnd, n, req)
+                ctx.evaluations += 1
+                ctx.count(f'gcda:mono:n={n}')
+                if 0 < len(req) < n:
+                    ctx.nontriv(('gcda', text, req))
+                if why:
+                    ctx.violation('binary-gcda-mono', f'gcda-binary on {text!r} required {list(req)}: {why}', {'kind': 'gcda', 'n': n, 'param': list(req)})
     # lines with a formatter argument: the pass object is reused across files; a bail-out on one file must not stick
     for arg in ('1', '2'):
         pass_, st, restored = bailed_out_lines_pass(ctx, arg)
@@ -377,6 +436,14 @@ def replay(ctx, payload):
         why = c15.oracle_bin(ctx, r['n'], 'mono', r['param'], steps, final, log, r.get('scen', {}), None)
         if why:
             ctx.violation('binary-clang-mono', why, r)
+        return
+    if r['kind'] == 'gcda':
+        for seed in range(20):
+            text, why = gcda_case(ctx, random.Random(seed), r['n'], r['param'])
+            if why:
+                print('replay gcda:', text, why)
+                ctx.violation('binary-gcda-mono', why, r)
+                return
         return
     if r['kind'] == 'ifs':
         why = ifs_case(ctx, r['text'], r['n'], r['param'])
